@@ -25,9 +25,9 @@
 (* larger than any buffer of the engine.                                  *)
 EXTENDS Integers, Sequences, FiniteSets, TLC, Json, SequencesExt
 
-CONSTANTS GraphSpecs,   \* set of [shape, n, m]
+CONSTANTS Graphs,       \* name of the graph set explored (see GraphSpecs)
           MaxLen,       \* steps after the start statement
-          Alpha         \* "wide" | "deep": which step alphabet
+          Alpha         \* "wide" | "base": which step alphabet
 
 VARIABLES g, prog, s
 vars == <<g, prog, s>>
@@ -38,6 +38,29 @@ MinOf(a, b) == IF a < b THEN a ELSE b
 MaxOf(a, b) == IF a > b THEN a ELSE b
 
 ------------------------------------------------------------------------
+(* The volumes: 0, 1, cap-1, cap, cap+1, 2cap+1 and multiples for the    *)
+(* capacities 100 / 1000 / 5000 of the engine's channels (the sizes are  *)
+(* only a choice of where to look; no clause of the property mentions     *)
+(* them).  star(n): n+1 vertices, n edges; chain(n): n vertices, n-1      *)
+(* edges; bip(n,m): n+m vertices, n*m edges (m = 0: vertices only).       *)
+G(shape, n, m) == [shape |-> shape, n |-> n, m |-> m]
+GraphSpecs ==
+  CASE Graphs = "quick" ->
+         { G("star", 0, 0), G("star", 1, 0), G("star", 101, 0), G("star", 1001, 0), G("star", 1500, 0), G("star", 5001, 0),
+           G("chain", 0, 0), G("chain", 2, 0), G("chain", 1001, 0), G("chain", 2500, 0),
+           G("bip", 3, 400), G("bip", 20000, 0), G("bip", 101, 200) }
+    [] Graphs = "small" ->     \* around the 100-slot channels, all programs up to three steps
+         { G("star", 0, 0), G("star", 1, 0), G("star", 99, 0), G("star", 100, 0), G("star", 101, 0), G("star", 201, 0), G("star", 350, 0),
+           G("chain", 0, 0), G("chain", 1, 0), G("chain", 2, 0), G("chain", 100, 0), G("chain", 102, 0), G("chain", 202, 0),
+           G("bip", 1, 1), G("bip", 2, 101), G("bip", 11, 10), G("bip", 101, 3) }
+    [] Graphs = "large" ->     \* around the 1000- and 5000-slot channels
+         { G("star", 999, 0), G("star", 1000, 0), G("star", 1001, 0), G("star", 1103, 0), G("star", 1205, 0), G("star", 1500, 0),
+           G("star", 2001, 0), G("star", 2500, 0), G("star", 4999, 0), G("star", 5000, 0), G("star", 5001, 0), G("star", 10001, 0),
+           G("chain", 1000, 0), G("chain", 1001, 0), G("chain", 1002, 0), G("chain", 2002, 0), G("chain", 2204, 0), G("chain", 2205, 0),
+           G("chain", 2500, 0), G("chain", 5001, 0),
+           G("bip", 3, 400), G("bip", 2, 1001), G("bip", 1001, 2), G("bip", 101, 100), G("bip", 4, 5000), G("bip", 20000, 0), G("bip", 101, 200) }
+
+------------------------------------------------------------------------
 (* graph families as quotient graphs                                     *)
 NC(gs)      == CASE gs.shape = "chain" -> gs.n [] OTHER -> 2                  \* vertex classes
 NQ(gs)      == CASE gs.shape = "chain" -> MaxOf(gs.n - 1, 0) [] OTHER -> 1    \* edge classes
@@ -45,7 +68,7 @@ Size(gs, c) == CASE gs.shape = "star"  -> IF c = 1 THEN 1 ELSE gs.n
                  [] gs.shape = "bip"   -> IF c = 1 THEN gs.n ELSE gs.m
                  [] gs.shape = "chain" -> 1
 VLabel(gs, c) == CASE gs.shape = "star" -> IF c = 1 THEN "C" ELSE "L"
-                   [] gs.shape = "bip"  -> IF c = 1 THEN "A" ELSE "B"
+                   [] gs.shape = "bip"  -> IF c = 1 THEN "L" ELSE "R"
                    [] gs.shape = "chain" -> "L"
 \* edge class j: every vertex of class `from` has `od` edges into class `to`,
 \* every vertex of class `to` has `id` edges from class `from`
@@ -57,7 +80,7 @@ InQ(gs, c)  == CASE gs.shape = "chain" -> IF c > 1 THEN {c - 1} ELSE {}
 OutQ(gs, c) == CASE gs.shape = "chain" -> IF c < gs.n THEN {c} ELSE {}
                  [] OTHER -> IF c = 1 THEN {1} ELSE {}
 NEdges(gs, j) == Size(gs, QE(gs, j).from) * QE(gs, j).od
-SumSet(S, F(_)) == LET RECURSIVE R(_)
+SumOver(S, F(_)) == LET RECURSIVE R(_)
                        R(T) == IF T = {} THEN 0 ELSE LET x == CHOOSE x \in T : TRUE IN F(x) + R(T \ {x})
                    IN R(S)
 
@@ -66,12 +89,12 @@ TotalE(gs, m) == Sum([j \in 1..NQ(gs) |-> NEdges(gs, j) * m[j]])
 Total(gs, ty, m) == IF ty = "v" THEN TotalV(gs, m) ELSE TotalE(gs, m)
 
 \* movement of a multiset
-VOut(gs, m) == [d \in 1..NC(gs) |-> SumSet(InQ(gs, d),  LAMBDA j : QE(gs, j).id * m[QE(gs, j).from])]
-VIn(gs, m)  == [c \in 1..NC(gs) |-> SumSet(OutQ(gs, c), LAMBDA j : QE(gs, j).od * m[QE(gs, j).to])]
+VOut(gs, m) == [d \in 1..NC(gs) |-> SumOver(InQ(gs, d),  LAMBDA j : QE(gs, j).id * m[QE(gs, j).from])]
+VIn(gs, m)  == [c \in 1..NC(gs) |-> SumOver(OutQ(gs, c), LAMBDA j : QE(gs, j).od * m[QE(gs, j).to])]
 VOutE(gs, m) == [j \in 1..NQ(gs) |-> m[QE(gs, j).from]]
 VInE(gs, m)  == [j \in 1..NQ(gs) |-> m[QE(gs, j).to]]
-EOut(gs, m) == [d \in 1..NC(gs) |-> SumSet(InQ(gs, d),  LAMBDA j : QE(gs, j).id * m[j])]
-EIn(gs, m)  == [c \in 1..NC(gs) |-> SumSet(OutQ(gs, c), LAMBDA j : QE(gs, j).od * m[j])]
+EOut(gs, m) == [d \in 1..NC(gs) |-> SumOver(InQ(gs, d),  LAMBDA j : QE(gs, j).id * m[j])]
+EIn(gs, m)  == [c \in 1..NC(gs) |-> SumOver(OutQ(gs, c), LAMBDA j : QE(gs, j).od * m[j])]
 Plus(a, b) == [i \in DOMAIN a |-> a[i] + b[i]]
 
 ------------------------------------------------------------------------
